@@ -415,6 +415,8 @@ type FuncSpec struct {
 	MayPanic   bool
 	Out        []int
 	Ghosts     []Param
+	RawSlice   map[string]bool // local variables of an abstract list type that are modelled as concrete slices
+	SameAs     string          // interface method: the contract is that of this (verified) implementation
 }
 
 type GhostFunc struct {
@@ -468,7 +470,8 @@ var topKeywords = map[string]bool{"sort": true, "type": true, "alias": true, "wo
 	"ghost": true, "lemma": true, "func": true, "global": true, "axiom": true, "uf": true}
 var subKeywords = map[string]bool{"ghostvar": true, "params": true, "pure": true, "def": true, "defsmt": true, "inline": true, "opaque": true, "trusted": true,
 	"fresh": true, "requires": true, "ensures": true, "modifies": true, "let": true, "loop": true, "use": true, "unfold": true,
-	"induction": true, "call": true, "allow": true, "unreachable": true, "reads": true, "nopanic": true, "maypanic": true, "out": true, "as": true}
+	"induction": true, "call": true, "allow": true, "unreachable": true, "reads": true, "nopanic": true, "maypanic": true, "out": true, "as": true,
+	"rawslice": true, "sameas": true}
 
 // extractSpecText returns the contract text of a file: everything inside /*@ ... @*/ blocks,
 // or the whole file when there is no such block (lib spec files).
@@ -719,6 +722,23 @@ func ParseSpecFile(path, src, pkgPath string) (*SpecFile, error) {
 				return nil, errf(c, "inline outside func")
 			}
 			curF.Inline = true
+		case "rawslice":
+			if curF == nil {
+				return nil, errf(c, "rawslice outside func")
+			}
+			if curF.RawSlice == nil {
+				curF.RawSlice = map[string]bool{}
+			}
+			for _, p := range strings.Split(c.rest, ",") {
+				if n := strings.TrimSpace(p); n != "" {
+					curF.RawSlice[n] = true
+				}
+			}
+		case "sameas":
+			if curF == nil {
+				return nil, errf(c, "sameas outside func")
+			}
+			curF.SameAs = qualifyFuncKey(strings.TrimSpace(c.rest), pkgPath)
 		case "opaque":
 			if curF == nil {
 				return nil, errf(c, "opaque outside func")
